@@ -66,7 +66,7 @@ func H_C04_status() {
 	st := rt.Time("signingTime")
 	opts := CertCheckStatusOptions{HTTPClient: &http.Client{}, SigningTime: st}
 	var r *result.ServerResult
-	_, panicked := rt.Panics(func() { r = checkStatusFromServer(context.Background(), cert, issuer, l1bServer, opts) })
+	_, panicked := rt.Panics(func() { r = checkStatusFromServer(rt.EnvContext{Tag: "caller"}, cert, issuer, l1bServer, opts) })
 	rt.AssertKnown(!panicked, "C04.L1b.nopanic", "F2", execCalls == 0)
 	if panicked {
 		return
